@@ -1,4 +1,4 @@
-\* as is, thorough: two workers, a caller, three rounds, a lost and an inbound connection
+\* as is, thorough: two workers, a caller, a lost connection
 SPECIFICATION Spec
 CONSTANTS
   Peers = {"p1", "p2"}
@@ -7,9 +7,9 @@ CONSTANTS
   Workers = {"w1", "w2"}
   Callers = {"c1"}
   Delay = 1
-  MaxRounds = 3
+  MaxRounds = 2
   MaxDrops = 1
-  MaxInbound = 1
+  MaxInbound = 0
   MaxFail = 0
   MaxCalls = 1
   MaxApi = 0
